@@ -22,7 +22,10 @@ Inductive case :=
           (enf : list Z)                (* read from the connection *)
           (idle : Z)                    (* Conn.idleTimeout after applyTransportParams, ns *)
           (deadline pto3 : Z)           (* nextIdleTimeoutTime - idleTimeoutStartTime, and the 3*PTO that entered it (oracle), ns *)
-          (probes : list (ev * Z)).     (* boundary events and the error code each produced (stops at the first error) *)
+          (probes : list (ev * Z))      (* boundary events and the error code each produced (stops at the first error) *)
+(* Conn.SendDatagram of [payload] bytes with the peer's max_datagram_frame_size and the MTU estimate:
+   accepted?, the limit a DatagramTooLargeError reports (-1 if none), the size of the queued frame (0 if none) *)
+| SendCase (peer_mdfs mtu payload : Z) (ok : bool) (reported frame_size : Z).
 
 Record obs := mkObs {
   o_wire_ok : bool;      (* the parameter list marshals to the wire bytes (version_information: oracle) and the wire parses back *)
@@ -48,8 +51,17 @@ Definition enf_list (c : config) : list Z :=
    l_cid e;                    (* cap(connIDManager.queue) *)
    c_mcw c; c_msw c].          (* auto-tuning maxima *)
 
+Definition send_obs (peer_mdfs mtu payload : Z) : bool * Z * Z :=
+  if send_datagram_ok peer_mdfs mtu payload then (true, -1, dgram_frame_size true payload)
+  else (false, (if 0 <? peer_mdfs then send_datagram_max peer_mdfs mtu else -1), 0).
+
+Definition dummy_obs : obs := mkObs true true [] [] [] 0 0 [] true.
+
 Definition model_obs (c : case) : obs :=
   match c with
+  | SendCase m t p _ _ _ =>
+    let '(ok, r, f) := send_obs m t p in
+    mkObs ok true [r; f] [] [] 0 0 [] true
   | AdvCase sd params sup rnd scid rawcfg peer_idle wire override _ _ _ _ _ pto3 probes =>
     let ps := map (fun p => (fst p, hx (snd p))) params in
     let w := hx wire in
@@ -85,6 +97,8 @@ Definition model_obs (c : case) : obs :=
 
 Definition check_case (c : case) : bool :=
   match c with
+  | SendCase m t p ok r f =>
+    let '(ok', r', f') := send_obs m t p in Bool.eqb ok ok' && (r =? r') && (f =? f')
   | AdvCase _ _ _ _ _ _ _ _ _ adv rec enf idle deadline _ probes =>
     let o := model_obs c in
     o_wire_ok o && o_override_ok o && eq_bytes (o_adv o) adv && eq_bytes (o_rec o) rec &&
